@@ -429,6 +429,25 @@ def methods(draw, u, it, name):
         ret = ["result", ok, err, sp]
     if rk in ("write", "resultwrite"):
         params.append([pnames[n] if pnames[n] != "write" else "w", ["write"], []])
+    # spell some occurrences of the surrounding type as `Self`
+    if p.get("self_spelling", True):
+        def mark(t):
+            k = t[0]
+            if k in ("opt",):
+                mark(t[1])
+            elif k == "result":
+                mark(t[1])
+                mark(t[2])
+            elif k == "enum" and t[1] == it["name"] and len(t) == 2 and draw(st.integers(0, 2)) == 0:
+                t.append("Self")
+            elif k in ("struct", "box") and t[1] == it["name"] and len(t) == 3 and t[2] == tl and draw(st.integers(0, 2)) == 0:
+                t.append("Self")
+            elif k == "ref" and t[3] == it["name"] and len(t) == 5 and t[4] == tl and draw(st.integers(0, 2)) == 0:
+                t.append("Self")
+        for q in params:
+            mark(q[1])
+        if ret:
+            mark(ret)
     # lifetimes declared on the method: every named lifetime used that is not the type's
     used = set()
     if slf and slf[0] == "ref" and slf[1]:
